@@ -210,6 +210,7 @@ class CalRecorder:
         k = len(self.calls)
         out = [core.SNum(z3.Real("cal%d_%d" % (k, j))) for j in range(len(scores))]
         self.calls.append((list(scores.items), list(targets.items), out))
+        self.descs = getattr(self, "descs", []) + [desc]
         return symnp.SArray(list(out), symnp.float64)
 
 
